@@ -22,7 +22,11 @@ RULE = (
     'up to the stated depth with all observers run after every step. score '
     'stage: OscScore (NRT) fed bundles at generated tie-heavy times, checked '
     'for time order + send order among ties + tail marker. exitq stage: '
-    'private queue drained like Process._shutdown. Non-trivial = history has '
+    'private queue drained like Process._shutdown. nrt_reset stage: '
+    'generated programs (C05 generator with tempo changes) preceded by '
+    'statements that leave tasks pending on the same clocks and a '
+    'main.reset(): nothing pending at the reset may run, the program runs as '
+    'the reference model says. Non-trivial = history has '
     'a remove of a present task or a re-add, after which (all observers run '
     'after every step) at least two live entries tie in priority (score: >=2 '
     'equal times; exitq: tie and a removal). Distinct '
@@ -342,6 +346,61 @@ def exitq_strategy():
     return st.lists(op, min_size=1, max_size=20)
 
 
+# --- stage: nrt_reset ---------------------------------------------------------------
+# The non-real-time scheduler is a time-ordered collection too: main.reset()
+# is its clear(). Tasks pending at the reset must never run - also not when a
+# later tempo change re-keys the sleepers of their clock - and the program
+# that follows runs as on a fresh scheduler.
+
+@st.composite
+def reset_programs(draw):
+    from vlib import proggen
+    p = draw(proggen.timing_program(max_routines=4, tempo_ops=True))
+    refs = ['sys', 'app'] + list(range(len(p['clocks'])))
+    ab = []
+    tag = 900
+    for i in range(draw(st.integers(1, 3))):
+        nm = f'z{i}'
+        body = []
+        for _ in range(draw(st.integers(1, 3))):
+            tag += 1
+            body += [['log', tag], ['wait', draw(st.sampled_from(
+                [0, 0.25, 1, 2]))]]
+        p['routines'][nm] = {'body': body}
+        c = draw(st.sampled_from(refs))
+        if draw(st.booleans()):
+            ab.append(['play', nm, c, draw(st.sampled_from([None, 0, 1]))])
+        else:
+            ab.append(['sched', c, draw(st.sampled_from([0, 0.5, 1, 3])),
+                       nm])
+    p['abandon'] = ab
+    return p
+
+
+def run_nrt_reset(p, v):
+    from vlib import prog, prog_model
+    from checks import c05
+    try:
+        m = prog_model.Model(p, interacting={'tempo'}).run()
+    except prog_model.Ambiguous:
+        raise Reject()
+    if m.simultaneous:
+        raise Reject()
+    out = prog.run_nrt(p)
+    ghosts = [x for x in out['trace'] if x['kind'] == 'log'
+              and str(x['r']).startswith('z')]
+    if ghosts:
+        v.fail('ran_after_reset',
+               f'tasks pending at main.reset() ran afterwards: '
+               f'{[(x["r"], x["tag"], x["secs"]) for x in ghosts]}')
+    c05.compare_logs([x for x in out['trace'] if x not in ghosts], m.trace,
+                     c05.TOL_DYADIC, v, 'after_reset', ordered='ties_free')
+    tempo = any(op[0] == 'tempo' for r in p['routines'].values()
+                for op in r['body'])
+    return {'nontrivial': tempo,
+            'labels': ['tempo_change_after_reset'] if tempo else []}
+
+
 def stages(ctx):
     return [
         Stage('history', run_history, history_strategy(),
@@ -349,4 +408,6 @@ def stages(ctx):
         Stage('enum', run_history, cases=enum_cases, exhaustive=True),
         Stage('score', run_score, score_strategy(), quick=300, thorough=3000),
         Stage('exitq', run_exitq, exitq_strategy(), quick=300, thorough=3000),
+        Stage('nrt_reset', run_nrt_reset, reset_programs(), quick=300,
+              thorough=3000),
     ]
